@@ -1516,7 +1516,15 @@ def _encode_host(host: str, validate_host: bool) -> str:
             ) from None
         return host
 
-    return _idna_encode(host)
+    host = _idna_encode(host)
+    if validate_host and (invalid := NOT_REG_NAME.search(host)):
+        # IDNA mapping (NFKC) can turn a single character into delimiters,
+        # e.g. U+2100 into "a/c"
+        raise ValueError(
+            f"Host {host!r} cannot contain {invalid.group()!r} "
+            f"(at position {invalid.start()})"
+        )
+    return host
 
 
 @rewrite_module
